@@ -229,6 +229,7 @@ MUTANTS['C05'] = [
   ('lpm-except-generatorexit-narrowed', [(P, "        except GeneratorExit:\n            # A GeneratorExit will not stop", "        except KeyboardInterrupt:\n            # A GeneratorExit will not stop")]),
   ('lpm-cancel-only-first', [(P, "            try:\n                while True:\n                    q.get(block=False).cancel()\n            except queue.Empty:\n                pass\n\n    elif backend is False:", "            try:\n                q.get(block=False).cancel()\n            except queue.Empty:\n                pass\n\n    elif backend is False:")]),
   ('mp-pool-not-cleared', [(P, "            ex.join()\n            ex.clear()\n", "")]),
+  ('mp-iterations-share-the-cached-pathos-pool', [(P, "            ex = PathosPool(max_workers,\n                            id=('lazy_dataset', next(_PATHOS_POOL_IDS)))", "            ex = PathosPool(max_workers)")]),
 ]
 
 MUTANTS['C06'] = [
